@@ -135,6 +135,17 @@ CHECKS["C11"] = dict(
     note="float32 accumulation in the kernels vs float64 reference bounds the tolerance; multiset kernel offsets are fixed to 0 here.",
     ref="7/C11")
 
+CHECKS["C04"] = dict(
+    technique="property-based testing / differential execution: the same corpus under many (n_threads, coo_initial_memory, pool size, threshold) configurations against naive and vectorised reference counts; worker interpreters for lowered thresholds with crash detection",
+    text="Four generated families: small corpora in worker interpreters whose accumulator threshold is lowered through the guarded hook "
+         "(many sort/merge/growth rounds); seed-generated corpora of 7e4 - 2e6 events at the real threshold with vocabularies 1..1000 and "
+         "coo_initial_memory from '1k' up; fit-small / transform-large; n_threads 1..16 x dask pool sizes x NUMBA_NUM_THREADS 1/16 with "
+         "repetition. Every matrix must equal the reference count (exactly for flat kernels) and a dying interpreter is a violation. "
+         "Exploration; thread schedules are varied, not controlled.",
+    note="A failure seen only under a lowered threshold is re-run at the real threshold on a proportionally larger corpus and reported as "
+         "'inconclusive (lowered-threshold only)' if it does not reproduce there. Uses the guarded hook VECTORIZERS_VERIF_COO_LIMIT.",
+    ref="7/C04")
+
 PENDING_REASON = "check not built yet in this revision of /verif (planned, see DESIGN.md section 7)"
 
 
